@@ -2027,8 +2027,10 @@ func (a *align) Compress() (weights []int) {
 	npat = 0
 	r.Walk(func(pattern string, count interface{}) bool {
 		weights[npat] = count.(*struct{ count int }).count
-		for seq, c := range pattern {
-			a.seqs[seq].sequence[npat] = uint8(c)
+		// pattern holds one byte per sequence: index it by byte (ranging over
+		// the string would decode UTF-8 and corrupt bytes >= 0x80)
+		for seq := 0; seq < len(pattern); seq++ {
+			a.seqs[seq].sequence[npat] = pattern[seq]
 		}
 		npat++
 		return false
